@@ -1139,12 +1139,13 @@ fn gen_c11(rng: &mut Rng, n: u32, a: u32, s: u32) -> C11 {
         reports.push((f, t, o));
     };
     match pat {
-        0 => for x in 0..k { for d in 1..=8usize.min(k.saturating_sub(1)) { sy(syb[x], syb[(x + d) % k], rng, &mut reports); } },
+        // degree cap 8 (2 for very large S: the model's evaluation is quadratic in the number of entries)
+        0 => for x in 0..k { for d in 1..=(if k > 300 { 2usize } else { 8 }).min(k.saturating_sub(1)) { sy(syb[x], syb[(x + d) % k], rng, &mut reports); } },
         1 => for x in 1..k { sy(syb[x], syb[0], rng, &mut reports); if rng.chance(1, 2) { sy(syb[0], syb[x], rng, &mut reports); } },
         2 => for x in 0..k.saturating_sub(1) { sy(syb[x], syb[x + 1], rng, &mut reports); },
         3 => for x in 0..k { sy(syb[x], syb[(x + 1) % k], rng, &mut reports); },
         4 => for x in 0..k { sy(syb[x], syb[x], rng, &mut reports); },
-        _ => for x in 0..k { for _ in 0..rng.range(1, 3) { let t = *rng.pick(&syb); sy(syb[x], t, rng, &mut reports); } },
+        _ => for x in 0..k { for _ in 0..rng.range(1, if k > 300 { 1 } else { 3 }) { let t = *rng.pick(&syb); sy(syb[x], t, rng, &mut reports); } },
     }
     // Sybils praising (or blaming) honest nodes and anchors: outgoing only
     let out_pct = *rng.pick(&[0u64, 0, 20, 60]);
